@@ -442,6 +442,12 @@ class Transaction:
                 # Known-pre-commit-point failure - safe to clean up written files
                 self._rollback()
                 raise e
+            except BaseException:
+                # KeyboardInterrupt / SystemExit can land anywhere, including after
+                # the commit point: the outcome is unknown, so keep every file
+                # (and stop __exit__ from running a deleting rollback).
+                self._rollback(delete_files=False)
+                raise
 
         # This line should not be reached if max_retries > 0, but added for completeness
         self._rollback()
